@@ -5,7 +5,7 @@ from harness import runner, tlc, isagen
 
 INV = ['SelectedIsLeastAccepting', 'RegisterNeverNumeric', 'NoAcceptingMeansRejected', 'Emit']
 TXT = {'r': 'r1', 'r2': 'r2', '[r]': '[r1]', '[r+n]': '[r1+5]', '[n]': '[5]', '[[n]]': '[[5]]', 'r+n': 'r1+5', 'key': 'kx',
-       'num': '5', 'lab': 'lab', '{n}': '{5}', 'hexa': '$a', 'chra': "'a'", 'r++': 'r1++', '@r': '@r1'}
+       'void': '', 'num': '5', 'lab': 'lab', '{n}': '{5}', 'hexa': '$a', 'chra': "'a'", 'r++': 'r1++', '@r': '@r1'}
 VAL = {'num': 5, 'lab': 9, 'key': 7, '{n}': 5, 'hexa': 10, 'chra': 97}
 
 
@@ -42,6 +42,8 @@ def alt_cfg(a):
         return c
     if ty == 'numeric_bytecode':
         return {'type': ty, 'bytecode': {'size': 8, 'min': 0, 'max': 255}}
+    if ty == 'empty':
+        return {'type': 'empty', 'bytecode': code}
     raise ValueError(ty)
 
 
@@ -51,7 +53,7 @@ def build(e, stmts=None):
     opsets = {}
     variants = []
     for i, v in enumerate(isa):
-        ops = {'count': nops}
+        ops = {'count': len(v['sets']) if v['sets'] else (len(v['spec'][0]) if v['spec'] else nops)}
         if v['spec']:
             ops['specific_operands'] = {f'sp{j}': {'list': {oname(a[0]): alt_cfg(a) for a in lst}} for j, lst in enumerate(v['spec'])}
         if v['sets']:
@@ -87,9 +89,11 @@ def expected_prefix(e):
         for s in v['sets']:
             for a in s:
                 alts[a[0]] = a
-    for k, aid in enumerate(r['ids']):
+    texts = list(e['t'])
+    for aid in r['ids']:
+        t = None if alts[aid][1] == 'empty' else texts.pop(0)
         if alts[aid][1] == 'numeric_bytecode':
-            out.append(VAL[e['t'][k]])
+            out.append(VAL[t])
         else:
             out.append(aid)
     return bytes(out)
@@ -97,7 +101,7 @@ def expected_prefix(e):
 
 def evaluate(e):
     isa, src = build(e)
-    n = 1 + len(e['t'])
+    n = 1 + (len(e['r']['ids']) if e['r']['ok'] else len(e['t']))
     case = {'config': isa, 'files': {'main.asm': src}, 'start': 0, 'end': n - 1}
     obs = runner.run_case(case)
     if obs['status'] == 'timeout':
